@@ -63,6 +63,45 @@ class HybridModule(AutoSerialize, torch.nn.Module):
         self.weight = torch.nn.Parameter(torch.arange(3, dtype=torch.float32))
 
 
+def _fill_root_net(self, rng):
+    self.encoder = torch.nn.Linear(4, 3)
+    self.head = torch.nn.Sequential(torch.nn.Linear(3, 2), torch.nn.Tanh(), torch.nn.Linear(2, 1))
+    self.scale = torch.nn.Parameter(torch.tensor(rng.normal(size=3).tolist(), dtype=torch.float32))
+    self.frozen = torch.nn.Parameter(torch.ones(2), requires_grad=False)
+    self.register_buffer("running_mean", torch.tensor(rng.normal(size=3).tolist(), dtype=torch.float32))
+    self.register_buffer("scratch", torch.zeros(2) + float(rng.integers(1, 9)), persistent=False)
+    self.note = "trained %d epochs" % int(rng.integers(1, 99))
+    self.history = np.linspace(0.0, 1.0, 7) * float(rng.integers(1, 9))
+    self.meta = {"encoder": "a dict key, not an attribute", "n": int(rng.integers(99))}
+    self.stamp = np.complex64(complex(float(rng.integers(1, 9)), -1.5))
+    self.plain_t = torch.tensor(rng.normal(size=(2, 2)).tolist(), dtype=torch.float64)
+    self.child = make_leaf(rng)
+    self.child.note = "same name one level down"
+    self.child.sub = make_leaf(rng, Other)
+    self.child.sub.history = [1, 2, 3]
+
+
+class RootNetModuleFirst(torch.nn.Module, AutoSerialize):
+    """a *root* object that is nn.Module and AutoSerialize (MRO: Module first): sub-modules, parameters and buffers are
+    attributes registered by nn.Module, plain attributes live in __dict__."""
+
+    def __init__(self, rng):
+        super().__init__()
+        _fill_root_net(self, rng)
+
+
+class RootNetSerializeFirst(AutoSerialize, torch.nn.Module):
+    """same, MRO: AutoSerialize first (the order the library's own models use)."""
+
+    def __init__(self, rng):
+        torch.nn.Module.__init__(self)
+        _fill_root_net(self, rng)
+
+
+ROOT_NET_MEMBERS = {"encoder": "submodule", "head": "submodule", "scale": "parameter", "frozen": "parameter", "running_mean": "buffer", "scratch": "buffer",
+                    "note": "plain", "history": "plain", "meta": "plain", "stamp": "plain", "plain_t": "plain", "child": "plain"}
+
+
 class Other(AutoSerialize):
     """third class (used as 'object of another class' by C08 and as skip type by C14)."""
 
